@@ -5,7 +5,7 @@
     check (root-logger handler), not a theorem. *)
 From V Require Import base.Prelude base.Strs gen.Tables model.Cfg model.Names model.Wildcard
   model.Addr model.Ports model.Ace model.Lex model.AddrText model.AceText model.AclText
-  proofs.TextProofs.
+  proofs.TextProofs proofs.AclFixProofs.
 
 (** valid lines are never dropped: whatever the ACE constructor accepts, in the documented
     shape "[sequence] permit|deny ...", is represented by its item *)
@@ -47,3 +47,12 @@ Example C12_nonvacuous :
        "permit ip 10.0.0.0 0.255.255.254 any"; "permit ip any"]
   = ["item"; "item"; "ignorable"; "reported"; "blank"; "abort"; "reported"].
 Proof. vm_compute. reflexivity. Qed.
+
+(** what the library itself prints is never lost when read again: every rendered line of a body
+    of remarks and reader-built extended ACEs ([item_built], C06) is classified as an item - the
+    same item -, none is ignorable, reported or aborting, and the items come back in line order *)
+Theorem C12_rendered_kept : forall c, (plat c = Ios \/ plat c = Nxos) ->
+  forall items, Forall (item_built c) items ->
+  let cl := classify_all c (map (render_item c) items) in
+  cl = map LItem items /\ aborted cl = false /\ items_of cl = items.
+Proof. exact acl_body_built_fixpoint. Qed.
